@@ -363,7 +363,8 @@ def _sess_slot(sessions):
                 raise Machinery('the session generator left the domain: %s' % json.dumps(s)[:300])
             if c['want'] != ['unpinned'] and got != c['want']:
                 bad.append([c['cl'], c['op'], c['form'], c['dl'], c['wr'], c['tl'], c['v'], c['f'], arg, c['want'], got,
-                            {'after': c['cls'], 'call': i + 1, 'history': _show(calls, outs), 'y': s['y'], 'm': s['m'], 'd': s['d']}])
+                            {'after': c['cls'], 'call': i + 1, 'history': _show(calls, outs), 'y': s['y'], 'm': s['m'], 'd': s['d'],
+                             'calls': [{k: x[k] for k in ('op', 'form', 'f', 'dl', 'v')} for x in calls]}])
     return bad, n
 
 
@@ -635,7 +636,8 @@ def validate(ctx, obs, findings, months):
                 i = int(where.split(':')[0])
                 c = o['calls'][i - 1]
                 findings.add(name, c['op'], c['form'], c['dl'], c['wr'], c['tl'], o['vs'][i - 1], c['f'], o['arg'][i - 1], 'see Dates!Expected', c['out'],
-                             where={'after': 'first' if i == 1 else o['hows'][i - 1], 'call': i, 'history': o['arg']})
+                             where={'after': 'first' if i == 1 else o['hows'][i - 1], 'call': i, 'history': o['arg'],
+                                    'calls': [dict({k: x[k] for k in ('op', 'form', 'f', 'dl')}, v=v) for x, v in zip(o['calls'], o['vs'])]})
             elif o['k'] == 'yr':
                 m, d = [int(x) for x in where.split(':')]
                 run = [r for r in o['runs'] if r[0] == m and r[1] <= d <= r[2]][0]
@@ -767,7 +769,11 @@ def replay(ctx, body):
     """./check C04 --replay <file>: run the recorded witness again and show what comes back"""
     c = body['case']
     v = c.get('rendering', {})
-    if body['clause'] == 'overflow':
+    if c.get('calls'):                        # a history: all its calls again, in this (new) process
+        outs = _play(c['calls'])
+        print('\n'.join(_show(c['calls'], outs)))
+        got = outs[c['call'] - 1][0]
+    elif body['clause'] == 'overflow':
         got = call(c['op'], tuple(c['f']), 'uk')
     else:
         got, args = observe(c['op'], c['form'], c['f'], c['dialect'], v)
